@@ -255,6 +255,68 @@ theorem shrink_to_fit_keeps (env : Env) (v : Vec) (hv : v.WF) :
       simpa [Vec.total, htk] using this
     · exact ⟨rfl, rfl, hv, hcap, Nat.le_refl _, Or.inl rfl⟩
 
+/-- `shrink_to(min_capacity)`: contents and length are kept, the vector stays well-formed — in particular its
+    buffer IS the (possibly moved) block the allocator handed back —, and the capacity either stays or becomes
+    exactly `max(len, min_capacity)`; nothing happens unless that is below the old capacity -/
+theorem shrink_to_keeps (env : Env) (v : Vec) (hv : v.WF) (m : Nat) :
+    (shrinkTo env v m).abs = v.abs ∧ (shrinkTo env v m).len = v.len ∧ (shrinkTo env v m).WF ∧
+      v.len ≤ (shrinkTo env v m).cap ∧ (shrinkTo env v m).cap ≤ v.cap ∧
+      ((shrinkTo env v m).cap = v.cap ∨ (shrinkTo env v m).cap = max v.len m) ∧
+      (v.cap ≤ max v.len m → shrinkTo env v m = v) := by
+  have ⟨hs, hl⟩ := hv.slots_eq
+  have hcap := hv.len_le_cap
+  unfold shrinkTo
+  simp only
+  generalize hn : max v.len m = n
+  have hnl : v.len ≤ n := by omega
+  split
+  · exact ⟨rfl, rfl, hv, hcap, Nat.le_refl _, Or.inl rfl, fun _ => rfl⟩
+  · rename_i hlt
+    split
+    · have htk : v.slots.take n = I v.abs ++ H (n - v.len) := by
+        rw [hs, List.take_append, ← hl]
+        have h1 : List.take n (I v.abs) = I v.abs := List.take_of_length_le (by simp; omega)
+        rw [h1]
+        simp only [length_I]
+        congr 1
+        simp [H, List.take_replicate]
+        omega
+      have hc : ({ v with slots := v.slots.take n } : Vec).cap = n := by
+        simp [Vec.cap, htk, hl]; omega
+      have hs' : ({ v with slots := v.slots.take n } : Vec).slots = I v.abs ++ H (({ v with slots := v.slots.take n } : Vec).cap - v.len) := by
+        rw [hc]; simp [htk]
+      have habs : ({ v with slots := v.slots.take n } : Vec).abs = v.abs := Vec.WF.abs_eq hs' hl
+      refine ⟨habs, rfl, ⟨⟨v.abs, hs', hl⟩, ?_⟩, by rw [hc]; exact hnl, by rw [hc]; omega, Or.inr hc, fun h => by omega⟩
+      have := hv.2
+      rw [hv.total_eq] at this
+      simpa [Vec.total, htk] using this
+    · exact ⟨rfl, rfl, hv, hcap, Nat.le_refl _, Or.inl rfl, fun _ => rfl⟩
+
+/-- `Extend::extend(iter)` on a `BumpVec` behaves like `Vec::extend`: every item is appended in order, whatever
+    `size_hint` the source reports — unless the up-front reservation for the CLAIMED length overflows: then the
+    call panics and the vector is exactly as before -/
+theorem extend_refines (env : Env) (hk : env.kind = .bump) (v : Vec) (hv : v.WF) (src : List Id) (hint : Nat)
+    (lie : Option Nat) (maxCap : Nat) :
+    ∃ r, extendIter env v src hint lie maxCap = .ok r ∧
+      (if capOverflow env maxCap v v.len (spliceLower hint lie src.length) then
+         r.vec.abs = v.abs ∧ r.vec.len = v.len ∧ r.vec.cap = v.cap ∧ r.exit = .panic false
+       else r.vec.abs = v.abs ++ src ∧ r.exit = .ret () ∧ r.vec.len ≤ r.vec.cap ∧ v.cap ≤ r.vec.cap) := by
+  have ⟨hs, hl⟩ := hv.slots_eq
+  have h := extendIter_bump env hk v v.abs src hint lie maxCap hs hl
+  by_cases hov : capOverflow env maxCap v v.len (spliceLower hint lie src.length) = true
+  · simp only [hov, ↓reduceIte] at h ⊢
+    exact ⟨_, h, rfl, rfl, rfl, rfl⟩
+  · simp only [hov, Bool.false_eq_true, ↓reduceIte] at h ⊢
+    obtain ⟨v', e, hh, hc⟩ := h
+    refine ⟨_, e, Vec.WF.abs_eq hh.slots hh.len, rfl, ?_, hc⟩
+    have h1 := congrArg List.length hh.slots
+    simp only [List.length_append, length_I, length_H] at h1
+    have h2 : v'.slots.length = v'.cap := rfl
+    have h3 := hh.len
+    simp only [List.length_append] at h3
+    show v'.len ≤ v'.cap
+    omega
+
 /-! ## push / insert / extend_from_slice_clone / resize -/
 
 /-- `push`: with room the value is appended; a full `FixedBumpVec` panics and stays as it is -/
@@ -276,6 +338,13 @@ theorem push_refines (env : Env) (v : Vec) (hv : v.WF) (id : Id) :
     rw [hr'] at heq hlen
     obtain ⟨r, h1, h2, h3, -, h5, -⟩ := refines_of_eq heq (by simp at hlen; omega)
     exact ⟨r, h1, h5, by simpa [hr', pushSpec] using And.intro h2 h3⟩
+
+/-- `push_with(f)`: with room it is `push(f())`; when the reservation is refused `f` is not even called — the
+    vector is untouched and no value ever existed -/
+theorem push_with_refines (env : Env) (v : Vec) (id : Id) :
+    pushWith env v id = (if roomOne env v then push env v id else .ok ⟨v, .panic false, []⟩) := by
+  unfold pushWith roomOne
+  cases reserveOne env v <;> simp
 
 /-- `insert(index, value)`: panics exactly when `index > len` (or a `FixedBumpVec` is full) and then
     changes nothing; otherwise `value` ends up at `index` with the later elements shifted by one -/
@@ -705,16 +774,22 @@ theorem rev_append_refines (env : Env) (v other : Vec) (hv : v.RWF) (ho : other.
 
 /-- `splice(start..end, src)` behaves like `Vec::splice`: out-of-range arguments panic and leave the
     contents alone; otherwise the pulls return the front/back of the range, and (no panicking destructors)
-    afterwards the vector is `xs[..start] ++ src ++ xs[end..]` — whatever `size_hint` the source reports -/
+    afterwards the vector is `xs[..start] ++ src ++ xs[end..]` — whatever `size_hint` the source reports, as
+    long as no reservation for a CLAIMED count overflows; when one does (`spliceWritten … = (w, true)`, only a
+    lying source gets there) the call panics and the vector is `xs[..start] ++ w ++ xs[end..]` with `w` the
+    prefix of `src` written so far — like `Vec::splice` after a panic inside its `Splice::drop` -/
 theorem splice_refines (env : Env) (hk : env.kind = .bump) (hb : env.bombs = []) (v : Vec) (hv : v.WF) (start end_ : Nat)
-    (src : List Id) (hint : Nat) (script : List Pull) :
-    ∃ r, splice env v start end_ src hint script = .ok r ∧ r.vec.len ≤ r.vec.cap ∧ v.cap ≤ r.vec.cap ∧
+    (src : List Id) (hint : Nat) (lie : Option Nat) (maxCap : Nat) (script : List Pull) :
+    ∃ r, splice env v start end_ src hint lie maxCap script = .ok r ∧ r.vec.len ≤ r.vec.cap ∧ v.cap ≤ r.vec.cap ∧
       (if start > end_ ∨ end_ > v.len then r.vec.abs = v.abs ∧ r.exit = .panic false
-       else r.vec.abs = v.abs.take start ++ src ++ v.abs.drop end_ ∧
-            r.exit = .ret (pullsSpec ((v.abs.take end_).drop start) script).1) := by
+       else
+         r.vec.abs = v.abs.take start ++ (spliceWritten (capsOf env v hint lie maxCap) start end_ v.len src).1 ++ v.abs.drop end_ ∧
+         r.exit = (if (spliceWritten (capsOf env v hint lie maxCap) start end_ v.len src).2 then .panic false
+                   else .ret (pullsSpec ((v.abs.take end_).drop start) script).1)) := by
   have ⟨hs, hl⟩ := hv.slots_eq
-  obtain ⟨v', e, h, hc⟩ := splice_holds env hk v v.abs start end_ src hint script hs hl
-  have habs : v'.abs = (spliceSpec env.bombs v.abs start end_ src script).final := Vec.WF.abs_eq h.slots h.len
+  obtain ⟨v', e, h, hc⟩ := splice_holds env hk v v.abs start end_ src hint lie maxCap script hs hl
+  have habs : v'.abs = (spliceSpec env.bombs (capsOf env v hint lie maxCap) v.abs start end_ src script).final :=
+    Vec.WF.abs_eq h.slots h.len
   have hle : v'.len ≤ v'.cap := by
     have h1 := congrArg List.length h.slots
     simp only [List.length_append, length_I, length_H] at h1
@@ -728,7 +803,41 @@ theorem splice_refines (env : Env) (hk : env.kind = .bump) (hb : env.bombs = [])
   · have hr' : start > end_ ∨ end_ > v.abs.length := by omega
     simp [hr, hr']
   · have hr' : ¬ (start > end_ ∨ end_ > v.abs.length) := by omega
-    simp [hr, hr', hb]
+    have hany : ∀ l : List Id, l.any ([] : List Id).contains = false := by intro l; simp
+    rw [if_neg hr, if_neg hr', hb]
+    simp only [hany, Bool.false_eq_true, ↓reduceIte, hl]
+    trivial
+
+/-- an honest source (`lie = none`) on a vector whose sizes are nowhere near the layout bound never runs into
+    "capacity overflow": everything is written, as `Vec::splice` does -/
+theorem splice_honest_never_overflows (c : SpliceCaps) (start end_ xsLen : Nat) (src : List Id) (hl : c.lie = none)
+    (hse : start ≤ end_ ∧ end_ ≤ xsLen)
+    (hfit : max (max (c.cap * 2) (xsLen + src.length)) c.minCap ≤ c.maxCap) :
+    spliceWritten c start end_ xsLen src = (src, false) := by
+  have hlow : ∀ n, spliceLower c.hintCap c.lie n ≤ n := by
+    intro n; simp [spliceLower, hl]; omega
+  have hov : ∀ len add, len ≤ xsLen → add ≤ src.length → c.overflows len add = false := by
+    intro len add h1 h2
+    simp only [SpliceCaps.overflows, Bool.and_eq_false_iff, decide_eq_false_iff_not]
+    right; omega
+  unfold spliceWritten
+  by_cases h1 : end_ = xsLen
+  · simp [h1, hov start _ (by omega) (hlow _)]
+  · simp only [h1, ↓reduceIte]
+    by_cases h2 : src.length < end_ - start
+    · simp [h2]
+    · simp only [h2, ↓reduceIte]
+      have hl1 := hlow (src.drop (end_ - start)).length
+      have hr : (src.drop (end_ - start)).length ≤ src.length := by simp
+      have h3 := hov xsLen _ (Nat.le_refl _) (Nat.le_trans hl1 hr)
+      have h4 : ¬ spliceLower c.hintCap c.lie (src.drop (end_ - start)).length > (src.drop (end_ - start)).length := by omega
+      have h5 : ¬ spliceLower c.hintCap c.lie ((src.drop (end_ - start)).drop
+          (spliceLower c.hintCap c.lie (src.drop (end_ - start)).length)).length > c.maxCap := by
+        have := hlow ((src.drop (end_ - start)).drop (spliceLower c.hintCap c.lie (src.drop (end_ - start)).length)).length
+        have : ((src.drop (end_ - start)).drop (spliceLower c.hintCap c.lie (src.drop (end_ - start)).length)).length ≤ src.length := by
+          simp <;> omega
+        omega
+      simp only [h3, Bool.false_eq_true, and_false, ↓reduceIte, h4, h5]
 
 /-! ## `BumpVec::map` -/
 
